@@ -325,4 +325,51 @@ theorem prepare_xkeys (o : EpochOpts W) (p p1 : Pop W) (ex : ExecState) (rs rs' 
           refine ⟨species1, writeBack pz.species sorted2, _, hadj, ?_, rfl⟩
           rw [hwb]; exact hz1
 
+theorem setExp_okey (m : W) (x : Org W) :
+    (setExp m x).uid = x.uid ∧ (setExp m x).fitness = x.fitness ∧ (setExp m x).originalFitness = x.originalFitness := by
+  unfold setExp; split <;> exact ⟨rfl, rfl, rfl⟩
+
+/-- organism-level reading of `prepare_xkeys`: every organism left after the preparation phase carries allocation id,
+    fitness, original fitness and expected offspring of a member of the adjusted species with the same id, as they
+    were right after the expected offspring had been set -/
+theorem prepare_orgs (o : EpochOpts W) (p p1 : Pop W) (ex : ExecState) (rs rs' : List Nat)
+    (hnd : (p.species.map (·.id)).Nodup) (h : prepareForReproduction o p rs = .ok ((p1, ex), rs')) :
+    ∃ species1 : List (Species W), adjustAll o p.species = .ok species1 ∧
+      ∀ s1 ∈ p1.species, ∃ sa ∈ species1, s1.id = sa.id ∧ ∀ x ∈ s1.orgs, ∃ xa ∈ sa.orgs,
+        okey x = okey (setExp (popMean ({ p with species := species1 } : Pop W)) xa) := by
+  obtain ⟨species1, mid, doomed, hadj, hsub, hsp⟩ := prepare_xkeys o p p1 ex rs rs' hnd h
+  refine ⟨species1, hadj, ?_⟩
+  generalize popMean ({ p with species := species1 } : Pop W) = m at hsub ⊢
+  intro s1 hs1
+  rw [hsp] at hs1
+  obtain ⟨s, hs, rfl⟩ := List.mem_map.mp hs1
+  have hk := hsub.subset (List.mem_map_of_mem (f := xkey) hs)
+  simp only [List.map_map, List.mem_map, Function.comp] at hk
+  obtain ⟨sa, hsa, hka⟩ := hk
+  simp only [xkey, Prod.mk.injEq] at hka
+  obtain ⟨hka1, hka2⟩ := hka
+  refine ⟨sa, hsa, hka1.symm, ?_⟩
+  intro x hx
+  have hx' : x ∈ s.orgs := (List.mem_filter.mp hx).1
+  have hxk : okey x ∈ s.orgs.map okey := List.mem_map_of_mem hx'
+  rw [← hka2, List.map_map] at hxk
+  obtain ⟨xa, hxa, hxe⟩ := List.mem_map.mp hxk
+  exact ⟨xa, hxa, hxe.symm⟩
+
+/-- the organisms the mean is taken over: members of the adjusted species … -/
+theorem orgList_mem (q : Pop W) (y : Org W) (hy : y ∈ q.orgList) : ∃ s ∈ q.species, y ∈ s.orgs := by
+  unfold Pop.orgList at hy
+  obtain ⟨u, _, hf⟩ := List.mem_filterMap.mp hy
+  obtain ⟨s, hs, hys, _⟩ := findOrg_some_mem q u y hf
+  exact ⟨s, hs, hys⟩
+
+/-- … and, when every member is listed in `Population.Organisms` and allocation ids are pairwise distinct, all of them -/
+theorem mem_orgList (q : Pop W) (hl : ∀ u ∈ C02.orgUids q.species, u ∈ q.organisms) (hnd : (C02.orgUids q.species).Nodup)
+    (s : Species W) (hs : s ∈ q.species) (x : Org W) (hx : x ∈ s.orgs) : x ∈ q.orgList := by
+  unfold Pop.orgList
+  refine List.mem_filterMap.mpr ⟨x.uid, ?_, findOrg_of_mem q hnd s hs x hx⟩
+  apply hl
+  simp only [C02.orgUids, List.mem_flatMap, List.mem_map]
+  exact ⟨s, hs, x, hx, rfl⟩
+
 end GoNeat.C09
